@@ -197,7 +197,8 @@ def run(repo, chk):
            "refstring() validates the reference with the same lookup the resolver uses")
     ei = repo.func("utils._extract_info")
     fei = facts_of(ei)
-    chk.ob("R14.3", "utils._extract_info:qualname-path", (fei.mentions("qualname.split('.')") or fei.mentions("getattr(fn, '__qualname__', None).split('.')")) and fei.mentions("if p != '<locals>']") and fei.mentions("return (getattr(fn, '__module__', None), *path)"), ei.where,
+    chk.ob("R14.3", "utils._extract_info:qualname-path", (fei.mentions("qualname.split('.')") or fei.mentions("getattr(fn, '__qualname__', None).split('.')")) and fei.mentions("if p != '<locals>']")
+           and any(t.startswith(("return (getattr(fn, '__module__', None), *", "return (module, *")) for t, _, n in fei.items if isinstance(n, ast.Return)), ei.where,
            "the path is __qualname__ split on '.', without the <locals> markers")
     chk.ob("R14.3", "utils.refstring:uses-builder-and-verifier", facts_of(rs).mentions("_build_refstring(module, *path)") and
            (facts_of(rs).mentions("_verify_existence(module, *path)") or ve is rs) and facts_of(rs).has("module, *path = _extract_info(fn)"),
